@@ -2,7 +2,9 @@ package c05
 
 import (
 	"bytes"
+	"encoding/json"
 	"fmt"
+	"os"
 	"testing"
 	"testing/synctest"
 	"time"
@@ -40,6 +42,16 @@ func TestC05Stalled(t *testing.T) {
 				}
 			}
 		}
+	}
+	if rep.ReplayPath() != "" {
+		// replay: only the recorded case; the verdict is printed
+		var doc struct {
+			Case cas `json:"case"`
+		}
+		if b, err := os.ReadFile(rep.ReplayPath()); err == nil && json.Unmarshal(b, &doc) == nil && doc.Case.Kind != "" {
+			cases = []cas{doc.Case}
+		}
+		defer func() { fmt.Printf("replayed %+v: %d violation(s) %v\n", cases, len(r.Violations), r.Violations) }()
 	}
 	for _, c := range cases {
 		var fatal string
